@@ -7,8 +7,11 @@ import tree_streams as TS
 import e2e_streams as ES
 
 MODULE = "Props.C09"
-THEOREMS = ["C09_singular_releases_values", "C09_singular_draw_exact", "C09_rescale_identity", "C11_null_range", "C18_childIndex_bit", "removeDim_testBit"]
-PARTIAL = ["T09.a (all leaves singular and complete when every combination is held by range_low_threshold entities, noise off) is not a Lean theorem; "
+THEOREMS = ["C09_singular_releases_values", "C09_singular_draw_exact", "C09_rescale_identity", "C11_null_range", "C18_childIndex_bit", "removeDim_testBit",
+            "C09_equal_rows_same_leaf", "C18_forest_tree"]
+PARTIAL = ["T09.a: 'complete' is a Lean theorem (C09_equal_rows_same_leaf: a leaf of a forest tree holds all rows of each value combination it holds); "
+           "'all leaves singular when every combination is held by range_low_threshold entities and the noise is off' is not (it needs the split "
+           "test's depth / row-limit disjunct and the stub flag to be discharged from the hypothesis); "
            "numeric decoding back to the exact original value depends on double-precision behaviour of the scaler and round(); both are evaluated "
            "by the multiset oracle on every generated table and pinned by S-micro / S-tree"]
 ASSUMPTIONS = []
